@@ -164,6 +164,52 @@ def counters(res, rnd, thorough, broken_model):
     return len(cases)
 
 
+def appends(res, rnd, thorough):
+    """`m += [k]` and `m += "a"` on a shared array / string cell: the only compound assignment defined on
+    non-scalar contents; every append must survive (atomic read-modify-write), whatever the content kind"""
+    cases = []
+    for T in ((2, 4, 16) if thorough else (4, 16)):
+        for kind in ("array", "string"):
+            cases.append((kind, T, 600 if thorough else 300))
+    lines = []
+    for kind, T, iters in cases:
+        if kind == "array":
+            setup = "m := mut [0]; " + " ".join("w%d := () -> int { m += [%d]; return 0; };" % (i, i + 1) for i in range(T))
+        else:
+            setup = "m := mut \"\"; " + " ".join("w%d := () -> int { m += \"%s\"; return 0; };" % (i, "abcdefghijklmnop"[i]) for i in range(T))
+        lines.append("threads\tstd\t%s\t%d\tm\t%s\t%s" % (",".join("w%d" % i for i in range(T)), iters, rnd.choice(["code", "fn"]), esc_field(setup)))
+    out = harness_run(lines, timeout_per_chunk=600)
+    for (kind, T, iters), line in zip(cases, out):
+        res.evaluations += 1
+        res.count("appends:" + kind)
+        res.nontrivial.add("append:%s:%d:%d" % (kind, T, iters))
+        rep = dict(request=lines[cases.index((kind, T, iters))][:600], impl=line[:300])
+        g = sexp_parse(line)
+        if not (isinstance(g, list) and g and g[0] == "threads") or "panic" in line[:400]:
+            bad_line(res, line, "%d threads appending to a shared %s cell did not all finish" % (T, kind), rep, "deadlock" if "deadlock" in line else "panic")
+            continue
+        cell = [x for x in g[1:] if isinstance(x, list) and x and x[0] == "m"]
+        v = cell[0][1][2] if cell and isinstance(cell[0][1], list) and cell[0][1][0] == "cell#" else None
+        if kind == "array":
+            got = (len(v) - 2) if isinstance(v, list) and v and v[0] == "arr" else None
+            want = 1 + T * iters
+            counts_ok = True
+            if got == want:
+                from collections import Counter
+                c = Counter(x[1] for x in v[2:] if isinstance(x, list))
+                counts_ok = all(c.get(str(i + 1)) == iters for i in range(T))
+        else:
+            got = len(v[1]) - 2 if isinstance(v, list) and v and v[0] == "s" else None
+            want = T * iters
+            counts_ok = True
+        if got != want or not counts_ok:
+            res.violation("%d threads x %d appends (`m += ..`) to a shared %s cell: %s elements arrived, every sequential order gives %d (appends were lost)"
+                          % (T, iters, kind, got, want), rep, dict(oracle="atomic-rmw", cls="append-" + kind))
+        else:
+            res.traces_validated += 1
+    return len(cases)
+
+
 def interleavings(res, rnd, n, reps, broken_model):
     cases = []
     for _ in range(n):
@@ -336,7 +382,7 @@ def shared_code(res, rnd, seed, n):
 def run(res, tier, seed, broken_model):
     rnd = random.Random(seed)
     thorough = tier == "thorough"
-    n1 = counters(res, rnd, thorough, broken_model)
+    n1 = counters(res, rnd, thorough, broken_model) + appends(res, rnd, thorough)
     n2 = interleavings(res, rnd, 150 if thorough else 30, 12 if thorough else 5, broken_model)
     n3 = private_cells(res, rnd, 120 if thorough else 25, broken_model)
     n4 = shared_code(res, rnd, seed, 1500 if thorough else 150)
@@ -350,7 +396,7 @@ def run(res, tier, seed, broken_model):
         "assignment whose right-hand side reads the same cell (`m = *m + 1`) is two steps and is not claimed atomic",
     ]
     res.rule = ("counters: six commuting operators x {2..16} threads x 50-200 iterations with per-thread constants (model conc-seq and closed form) "
-                "and += 1 / ^= c at 10^4 iterations x up to 16 threads; mixed: 2-3 threads x 1-3 operations over all 12 assignment operators and reads "
+                "and += 1 / ^= c at 10^4 iterations x up to 16 threads; appends (`m += [k]`, `m += \"a\"`) to a shared array / string cell from up to 16 threads; mixed: 2-3 threads x 1-3 operations over all 12 assignment operators and reads "
                 "on 1-2 cells incl. failing divisors / shifts / exponents, each repeated, against the model's set over all interleavings; private: "
                 "8 threads x 40 runs of one function with 2-8 assignments on its own cells; shared code: generated programs (iterator-heavy) parsed "
                 "once, 8 threads x 6 runs; non-trivial = distinct scenario / program")
